@@ -376,7 +376,42 @@ def check_detection(spec: dict) -> dict:
     return {"nontrivial": nontrivial, "classes": sorted(set(classes))}
 
 
-SUBCHECKS = {"detection": check_detection, "detection_enum": check_detection}
+def check_sequence(spec: dict) -> dict:
+    """ one ruleset used for several records in a row (as hmm_detection keeps its rulesets for all records of a run):
+        what it reports for a record is what a freshly built ruleset reports for that record """
+    from antismash.common.hmm_rule_parser import cluster_prediction
+    shared_spec = {"rules": spec["rules"], "hits": {}}
+    ruleset = _build_ruleset(shared_spec, strip_superiors=False)      # its profiles read shared_spec["hits"]
+    classes = []
+    differing = False
+    for index, world in enumerate(spec["worlds"]):
+        single = {"L": world["L"], "circular": world["circular"], "genes": world["genes"], "hits": world["hits"],
+                  "rules": spec["rules"]}
+        fresh, _ = _run(single, strip_superiors=False)
+        shared_spec["hits"].clear()
+        shared_spec["hits"].update(world["hits"])
+        record = make_record(world["L"], world["circular"])
+        for gene in world["genes"]:
+            record.add_cds_feature(make_cds(gene["loc"], gene["name"]))
+        with code_under_test("detection_total"):
+            results = cluster_prediction.detect_protoclusters_and_signatures(record, ruleset)
+        got = [{"product": p.product, "core": ring.from_bio(p.core_location), "loc": ring.from_bio(p.location)}
+               for p in results.protoclusters]
+        key = lambda p: (p["product"], str(p["core"]["parts"]), str(p["loc"]["parts"]))  # noqa: E731
+        if sorted(map(key, got)) != sorted(map(key, fresh)):
+            raise Violation("depends_on_earlier_records", {"record": index, "with_shared_ruleset": sorted(map(key, got)),
+                                                           "with_fresh_ruleset": sorted(map(key, fresh))})
+        if index and world["hits"] != spec["worlds"][index - 1]["hits"]:
+            differing = True
+        if fresh:
+            classes.append("record_with_protoclusters")
+    classes.append(f"records_{len(spec['worlds'])}")
+    if any(rule.get("extenders") for rule in spec["rules"]):
+        classes.append("rule_with_extenders")
+    return {"nontrivial": differing and "record_with_protoclusters" in classes, "classes": sorted(set(classes))}
+
+
+SUBCHECKS = {"detection": check_detection, "detection_enum": check_detection, "sequence": check_sequence}
 SIGNATURES: dict = {}
 
 
@@ -656,6 +691,30 @@ def extender_specs(draw) -> dict:
     return {"L": length, "circular": circular, "genes": genes, "hits": hits, "rules": rules_spec}
 
 
+@st.composite
+def sequence_specs(draw) -> dict:
+    """ 2-3 records for one ruleset: the same gene names (often the same layout) with other hits, or another layout """
+    base = draw(st.one_of(extender_specs(), extender_overlap_specs(), detection_specs(), superior_specs()))
+    worlds = [{"L": base["L"], "circular": base["circular"], "genes": base["genes"], "hits": base["hits"]}]
+    pool = sorted({p for found in base["hits"].values() for p in found} | set(PROFILES))
+    for _ in range(draw(st.integers(1, 2))):
+        previous = worlds[-1]
+        hits = {}
+        for gene in previous["genes"]:
+            old = previous["hits"].get(gene["name"], {})
+            mode = draw(st.sampled_from(["same", "same", "none", "other", "swap"]))
+            if mode == "same":
+                hits[gene["name"]] = dict(old)
+            elif mode == "none":
+                hits[gene["name"]] = {}
+            elif mode == "other":
+                hits[gene["name"]] = {p: 100 for p in draw(st.lists(st.sampled_from(pool), max_size=2, unique=True))}
+            else:
+                hits[gene["name"]] = {draw(st.sampled_from(pool)): score for score in list(old.values())[:1]} or {}
+        worlds.append({"L": previous["L"], "circular": previous["circular"], "genes": previous["genes"], "hits": hits})
+    return {"rules": base["rules"], "worlds": worlds}
+
+
 def enum_cases(max_len: int):
     def cases():
         for length in range(9, max_len + 1):
@@ -690,4 +749,5 @@ def run(ctx) -> None:
     ctx.hyp("detection", extender_specs(), max_examples=ctx.pick(1200, 15000), shards=ctx.pick(8, 16))
     ctx.hyp("detection", superior_specs(), max_examples=ctx.pick(1500, 20000), shards=ctx.pick(8, 16))
     ctx.hyp("detection", extender_overlap_specs(), max_examples=ctx.pick(1500, 20000), shards=ctx.pick(8, 16))
+    ctx.hyp("sequence", sequence_specs(), max_examples=ctx.pick(800, 12000), shards=ctx.pick(8, 16))
     ctx.hyp("detection", hierarchy_specs(), max_examples=ctx.pick(1200, 15000), shards=ctx.pick(8, 16))
